@@ -392,9 +392,9 @@ def default_blanks(toks):
     return bl
 
 
-def case(variants, defs=(), shell="bash", cmd="cmd", **extra):
-    vs = [(cmd, v) if not (isinstance(v, tuple) and len(v) == 2 and isinstance(v[0], str) and v[0] not in
-                           ("lit", "ref", "cmd", "seq", "alt", "fb", "sub", "opt", "many", "dd")) else v for v in variants]
+def case(variants, defs=(), shell="bash", cmd="cmd", named=False, **extra):
+    """variants: expression trees (command name `cmd`), or (name, tree) pairs when named=True"""
+    vs = list(variants) if named else [(cmd, v) for v in variants]
     toks, ast = statements_tokens(vs, list(defs))
     c = {"usage": layout_default(toks), "shell": shell, "ast": ast}
     c.update(extra)
